@@ -977,8 +977,9 @@ class Compiler:
             if isinstance(op, (ast.In, ast.NotIn)):
                 cur, a = self.ev(ctx, node.left, cur)
                 rhs = node.comparators[0]
-                if isinstance(rhs, (ast.Tuple, ast.List)) and all(isinstance(x, ast.Constant) for x in rhs.elts):
-                    c = ("in", a, tuple(self.U.const(x.value) for x in rhs.elts))
+                members = self.static_members(rhs)
+                if members is not None:
+                    c = ("in", a, tuple(self.U.const(x) for x in members))
                 else:
                     cur, s_ = self.ev(ctx, rhs, cur)
                     c = ("setin", a, s_)
@@ -1144,6 +1145,44 @@ class Compiler:
         # first assignment happens later in the function: declare the local
         return V(ctx.local(n))
 
+    def class_const(self, f):
+        """(True, value) if `f` is a class-level constant (scalar, or tuple/frozenset of scalars) of the real classes in scope that
+        no modelled class assigns as an instance field, with one and the same value wherever it is defined"""
+        if any(f in i.fields for i in self.m.classes.values()):
+            return False, None
+        scalar = (int, str, bool, type(None))
+        vals = []
+        for c in self.ns.values():
+            if isinstance(c, type):
+                for k in c.__mro__:
+                    if f in vars(k):
+                        v = vars(k)[f]
+                        if isinstance(v, scalar) or (isinstance(v, (tuple, frozenset)) and all(isinstance(x, scalar) for x in v)):
+                            vals.append(v)
+                        break
+        if vals and all(v == vals[0] and type(v) is type(vals[0]) for v in vals):
+            return True, vals[0]
+        return False, None
+
+    def static_members(self, node):
+        """the members of a constant container expression: a literal tuple/list/set of constants, or a class / module constant"""
+        if isinstance(node, (ast.Tuple, ast.List, ast.Set)) and all(isinstance(x, ast.Constant) for x in node.elts):
+            return [x.value for x in node.elts]
+        if isinstance(node, ast.Attribute):
+            base = node.value
+            if isinstance(base, ast.Name) and base.id in self.ns and isinstance(self.ns[base.id], type):
+                v = getattr(self.ns[base.id], node.attr, None)
+                if isinstance(v, (tuple, frozenset)):
+                    return list(v)
+            found, v = self.class_const(node.attr)
+            if found and isinstance(v, (tuple, frozenset)):
+                return list(v)
+        if isinstance(node, ast.Name) and isinstance(self.ns.get(node.id), (tuple, frozenset)):
+            v = self.ns[node.id]
+            if all(isinstance(x, (int, str, bool, type(None))) for x in v):
+                return list(v)
+        return None
+
     def attr_load(self, ctx, node, cur):
         # harness globals
         if isinstance(node.value, ast.Name) and node.value.id == "G":
@@ -1174,15 +1213,9 @@ class Compiler:
             if (f,) and f in self.extra_stubs:
                 return cur, self.extra_stubs[f]
             # a class-level constant (e.g. a size threshold) read through the instance
-            vals = []
-            for c in self.ns.values():
-                if isinstance(c, type):
-                    for k in c.__mro__:
-                        if f in vars(k) and isinstance(vars(k)[f], (int, str, bool, type(None))):
-                            vals.append(vars(k)[f])
-                            break
-            if vals and all(v == vals[0] and type(v) is type(vals[0]) for v in vals):
-                return cur, C(self.U.const(vals[0]))
+            found, val = self.class_const(f)
+            if found and isinstance(val, (int, str, bool, type(None))):
+                return cur, C(self.U.const(val))
             self.err(node, f"unknown field {f!r} (no modelled class assigns it)")
         e = ("fld", obj, f)
         if self.field_immutable(f) or getattr(self, "pure_loads", False):
